@@ -567,7 +567,7 @@ func indexLed(p *parser, t *token, left *token) *token {
 		if p.Token.Symbol != "]" {
 			t.Append(p.Expression(0))
 		} else {
-			t.Append(&token{Pos: p.Token.Pos, Symbol: "(int)", Text: "-1"})
+			t.Append(&token{Pos: p.Token.Pos, Symbol: "(omitted)", Text: "-1"}) // s[i:]: not the same as a written -1
 		}
 	}
 	p.Advance("]")
